@@ -169,7 +169,9 @@ class MatchesSetwise:
 
     def match(self, observed):
         observed = list(observed)
-        matchers = list(set(self.matchers))
+        # A list, not a set: the same matcher object may be given more than
+        # once and then has to be satisfied that many times.
+        matchers = list(self.matchers)
         # Find a largest one-to-one assignment of values to matchers (augmenting
         # paths), so that the verdict does not depend on the order in which
         # the matchers happen to be tried.
